@@ -5,11 +5,18 @@ import DracoProps.C04
 import DracoProps.C12
 import DracoProps.C13
 import DracoProps.C01
+import DracoProps.C01Kd
 import DracoProps.C19
 import DracoProps.C11
 import DracoProps.C08
 import DracoProps.C14
 import DracoProps.C15
+import DracoProps.C01Eb
+import DracoProps.C05
+import DracoProps.C06
+-- TEMP(merge) import DracoProps.C10
+-- TEMP(merge) import DracoProps.C20
+-- TEMP(merge) import DracoProps.C09
 import DracoProps.C03
 import DracoProps.C02
 import DracoProps.C18
